@@ -354,6 +354,8 @@ def gen(rng, tier):
     from driver import cligen
     for c in cligen.cases(rng, ['consensus', 'entropy', 'stats', 'gapstats', 'mutstats', 'charstats', 'alleles', 'alphabet'], 40 if tier == "quick" else 400):
         yield c
+    for c in cligen.cases(rng, ['mutlist', 'mutcount'], 30 if tier == "quick" else 600):
+        yield c
     for _ in range(2 if tier == "quick" else 20):
         for argv in MULTI_CMDS:
             yield multigen.multi_case(multigen.alignments(rng), argv, "cli-multi-" + "-".join(argv[:2]))
